@@ -48,12 +48,14 @@ type File struct {
 	Name string `json:"name"`
 	// Docs, when non-empty, are the pieces Data is the concatenation of
 	// (documents with their separators); the shrinker drops pieces.
-	Docs    []string `json:"docs,omitempty"`
-	Data    Bytes    `json:"data"`
-	Mode    uint32   `json:"mode"`
-	Symlink string   `json:"symlink,omitempty"` // a symbolic link with this (possibly relative) destination
-	Dir     bool     `json:"dir,omitempty"`     // a directory in place of a file
-	Missing bool     `json:"missing,omitempty"` // not created at all
+	Docs     []string `json:"docs,omitempty"`
+	Data     Bytes    `json:"data"`
+	Mode     uint32   `json:"mode"`
+	Symlink  string   `json:"symlink,omitempty"`  // a symbolic link with this (possibly relative) destination
+	Hardlink string   `json:"hardlink,omitempty"` // a second hard link to the named file of the sandbox
+	Fifo     bool     `json:"fifo,omitempty"`     // a named pipe; the driver feeds the data into it
+	Dir      bool     `json:"dir,omitempty"`      // a directory in place of a file
+	Missing  bool     `json:"missing,omitempty"`  // not created at all
 }
 
 func (f *File) Bytes() []byte {
